@@ -141,3 +141,45 @@ func VerifH_C15_genericWiring() {
 func ifaceLo() *net.Interface { return &net.Interface{Index: 1, Name: "lo"} }
 
 func parseCIDR(s string) (net.IP, *net.IPNet, error) { return net.ParseCIDR(s) }
+
+type c08GateScanner struct {
+	inflight, max int
+	release       chan struct{}
+	calls         int
+}
+
+func (s *c08GateScanner) Scan(ctx context.Context, r *scan.Request) (scan.Result, error) {
+	s.calls++
+	s.inflight++
+	if s.inflight > s.max {
+		s.max = s.inflight
+	}
+	<-s.release
+	s.inflight--
+	return nil, nil
+}
+
+// VerifH_C08_workers: --workers W reaches the engine: with more targets than workers and probes
+// that do not finish, exactly W probes are in flight.
+func VerifH_C08_workers() {
+	c15Reset()
+	W := verifParam("W", 2)
+	o := &genericScanCmdOpts{workers: W}
+	o.portRanges = []*scan.PortRange{{StartPort: 80, EndPort: 81}}
+	ctx, cancel := context.WithCancel(context.Background())
+	defer cancel()
+	sc := &c08GateScanner{release: make(chan struct{})}
+	eng := o.newScanEngine(ctx, sc)
+	_, ipnet, _ := parseCIDR("10.0.0.0/30")
+	done, errc := eng.Start(ctx, &scan.Range{DstSubnet: ipnet, Ports: o.portRanges})
+	go func() {
+		for range errc {
+		}
+	}()
+	time.Sleep(time.Millisecond) // every worker is now inside a probe
+	verifAssert(sc.max == W && sc.inflight == W, "the number of concurrent probes is not the configured worker count")
+	close(sc.release)
+	<-done
+	verifAssert(sc.calls == 8, "4 addresses x 2 ports, but not 8 probes")
+	verifCover("done")
+}
